@@ -88,6 +88,7 @@ def run(ctx):
            'rule': 'Rewrite families keep/target: one scenario per initial state; relay: one trace per stack (PreserveHost off/on), 4+ concurrent connections alternating '
                    'HTTP/1.1 keep-alive and HTTP/2 multiplexing, 3-5 requests each, body sizes 0 / 1 / 1000 / 70000 / 300000 (thorough: up to 5 MiB), pieces 1..70000, '
                    'plus two connections with unusual ClientHellos'}
+    cov['requests_on_connections_older_than_the_handshake_timeout (real wiring)'] = wiring.judge_aged(ctx, 'C08')
     return ctx.finish(cov, assumptions=['body bytes are a keyed function of (request, offset): any loss, duplication, reordering or cross-request mix-up changes them',
                                         'header name case on the wire, User-Agent defaulting, Cookie merging on HTTP/2, Expect: 100-continue and Content-Length <-> chunked '
                                         're-framing are dont-care classes'])
